@@ -23,7 +23,11 @@ ANAGRAM = ["CCCO.CCOC>>CCCOCCOC", "CCOC.CCCO>>CCCOCCOC", "CCN.CNC>>CCNCNC", "CNC
            # coordination compounds: dative bonds are written '->' / '<-', their '>' is not a reaction arrow
            "[NH3]->[Pt](<-[NH3])(Cl)Cl.OC(=O)C(=O)O>>[NH3]->[Pt]1(<-[NH3])OC(=O)C(=O)O1.Cl.Cl",
            "Cl[Pd]Cl.CC#N.CC#N>>CC#N->[Pd](Cl)(Cl)<-N#CC", "c1ccncc1.Cl[Cu]>>c1ccn(->[Cu]Cl)cc1",
-           "[Pt](Cl)(Cl)(<-[NH3])<-[NH3]>>[Pt](Cl)(Cl)(<-[NH3])<-[NH3]"]
+           "[Pt](Cl)(Cl)(<-[NH3])<-[NH3]>>[Pt](Cl)(Cl)(<-[NH3])<-[NH3]",
+           # the same molecules with other multiplicities (one equivalent / two equivalents), one after the other
+           "ClC(Cl)=O.CCO>>CCOC(=O)OCC.Cl", "ClC(Cl)=O.CCO.CCO>>CCOC(=O)OCC.Cl.Cl", "CC=O.CC=O.CC=O>>CC1OC(C)OC(C)O1",
+           "CC=O>>CC1OC(C)OC(C)O1", "CC=O.CC=O>>CC(O)CC=O", "OCCO.CC(=O)O.CC(=O)O>>CC(=O)OCCOC(C)=O.O.O",
+           "OCCO.CC(=O)O>>CC(=O)OCCOC(C)=O.O"]
 
 
 def stereo_free(s):
